@@ -38,7 +38,11 @@ type spinBarrier struct {
 	arrived int32
 	gate    int32
 	timeout int32
+	strict  bool // never give up on its own: only abort() opens it (used where "somebody never arrives" IS the finding)
+	aborted int32
 }
+
+func (b *spinBarrier) abort() { atomic.StoreInt32(&b.aborted, 1) }
 
 func (b *spinBarrier) wait() {
 	if atomic.AddInt32(&b.arrived, 1) >= b.n {
@@ -48,9 +52,16 @@ func (b *spinBarrier) wait() {
 	deadline := time.Now().Add(3 * time.Second)
 	for i := 0; atomic.LoadInt32(&b.gate) == 0; i++ {
 		runtime.Gosched()
-		if i%1024 == 1023 && time.Now().After(deadline) {
-			atomic.AddInt32(&b.timeout, 1)
+		if atomic.LoadInt32(&b.aborted) != 0 {
 			return
+		}
+		if i%1024 == 1023 {
+			if b.strict {
+				time.Sleep(time.Millisecond) // waiting for a verdict of the state detector, not burning a core
+			} else if time.Now().After(deadline) {
+				atomic.AddInt32(&b.timeout, 1)
+				return
+			}
 		}
 	}
 }
@@ -214,7 +225,10 @@ func checkLedger(ctx *core.Ctx, ci int, l *mon.Ledger, where string, doc map[str
 func directStorm(ctx *core.Ctx, ci int, provName string, g int, coding string) {
 	l := mon.NewLedger(c13Provider(provName))
 	l.KeepHist, l.Trip = true, true
-	bar := &spinBarrier{n: int32(g)}
+	// start: everybody acquires at the same moment; bar: nobody releases before everybody HAS acquired, so an
+	// acquire that waits for somebody else's release is parked for good and shows up in the state detector
+	start := &spinBarrier{n: int32(g)}
+	bar := &spinBarrier{n: int32(g), strict: true}
 	bufs := make([]bytes.Buffer, g)
 	var wg sync.WaitGroup
 	for i := 0; i < g; i++ {
@@ -222,6 +236,7 @@ func directStorm(ctx *core.Ctx, ci int, provName string, g int, coding string) {
 		go func(i int) {
 			defer wg.Done()
 			payload := []byte(fmt.Sprintf("direct-%d-%d-%s", ci, i, strings.Repeat("x", i*7)))
+			start.wait()
 			if coding == "gzip" {
 				w := l.AcquireGzipWriter()
 				w.Reset(&bufs[i])
@@ -246,9 +261,14 @@ func directStorm(ctx *core.Ctx, ci int, provName string, g int, coding string) {
 	doc := map[string]interface{}{"provider": provName, "goroutines": g, "coding": coding, "kind": "direct"}
 	if blocked, timedOut := mon.WaitQuiescent(done, 45*time.Second); timedOut {
 		atomic.StoreInt32(&c13Abort, 1)
+		bar.abort()
 		if len(blocked) > 0 {
 			doc["blocked"] = blocked
-			ctx.Violation(ci, "c13:release-blocks:direct:"+provName, fmt.Sprintf("%d goroutine(s) parked forever in %s while releasing (everyone else has finished)", len(blocked), blocked[0].Frame), doc)
+			cls := "release-blocks"
+			if strings.Contains(blocked[0].Frame, "Acquire") {
+				cls = "acquire-blocks"
+			}
+			ctx.Violation(ci, "c13:"+cls+":direct:"+provName, fmt.Sprintf("%d goroutine(s) parked forever in %s (everyone else is waiting for them or has finished)", len(blocked), blocked[0].Frame), doc)
 		} else {
 			ctx.Inconclusive("direct storm did not finish and no blocked go-restful frame was found")
 		}
@@ -726,14 +746,14 @@ func c13(ctx *core.Ctx) {
 			if rep%4 == 0 && (!ctx.Quick() || prov == "syncpool" || prov == "bounded2") {
 				sizes = append(sizes, 64)
 			}
-			for _, n := range sizes {
+			for ni, n := range sizes {
 				for mi, mode := range modes {
 					ci++
 					if ctx.Skip(ci) {
 						continue
 					}
 					entry := rt.Dispatch
-					if (ci+mi)%2 == 1 {
+					if (ni+mi+rep)%2 == 1 {
 						entry = rt.ServeHTTP
 					}
 					ctx.Case(ci, fmt.Sprintf("framework provider=%s in_flight=%d entry=%s mode=%s", prov, n, entry, mode))
